@@ -19,6 +19,7 @@ CONSTANTS
   Bug_DeletePending = FALSE
   Bug_DeletePinned = FALSE
   Bug_ImmDropEarly = FALSE
+  Bug_FlushDeepDuringCompaction = FALSE
   Bug_SnapshotSwapsBounds = FALSE
   Bug_SeqFromManifestOnly = FALSE
   Bug_ReplaySkipsOlderLogs = FALSE
